@@ -385,6 +385,18 @@ def c14_diag_grad_length():
     return None if np.asarray(g).shape == (4,) else f"diagonal_gaussian_energy_grad returns a gradient of shape {np.asarray(g).shape} for 4-vectors"
 
 
+def c19_empty_relation():
+    """two consecutive datasets that share no sample: the relation dictionary between them is empty (an injective partial
+    relation like any other); the pinned tree raised ValueError (max of an empty sequence)"""
+    from umap.aligned_umap import expand_relations
+    try:
+        T = expand_relations([{0: 0, 1: 1}, {}], 2)
+    except Exception as e:  # noqa
+        return f"expand_relations([{{0: 0, 1: 1}}, {{}}], 2) raised {type(e).__name__}: {e}"
+    ok = T.shape[0] == 3 and int(T[0, 3, 0]) == 0 and int(T[0, 4, 0]) == -1 and int(T[2, 1, 0]) == -1
+    return None if ok else f"expand_relations with an empty second relation: tensor {T.tolist()}"
+
+
 def c10_csr_copy():
     import umap
     X = _rng(0).normal(size=(60, 5)).astype(np.float32)
@@ -823,6 +835,7 @@ WITNESSES = {
     "C17:rad-emb-unsquared": c17_rad_emb,
     "C18:empty-combined-graph": c18_empty_contrast,
     "C19:forward-into-last-dataset": c19_last_dataset,
+    "C19:empty-relation-dict": c19_empty_relation,
     "C20:extra-columns-not-pruned": c20_prune,
 }
 
